@@ -388,7 +388,124 @@ def rule_cache_commit(ctx, rule='C12.CACHE'):
 
 def run(ctx):
     ctx.rule('C12.CACHE', lambda: rule_cache_commit(ctx), 4)
+    ctx.rule('C12.OWNCOPY', lambda: rule_own_copy(ctx), 1)
+    ctx.rule('C12.FIELDS', lambda: rule_cache_fields(ctx), 2)
+    ctx.rule('C12.INITFIRST', lambda: rule_init_first(ctx), 1)
     ctx.rule('C12.INT', lambda: rule_int_all(ctx), 2)
     ctx.rule('C12.ONEAPPEND', lambda: rule_branch_loop(ctx), 7)
     ctx.rule('C12.ALIGN', lambda: rule_align(ctx) + rule_truncate_noop(ctx), 4)
     ctx.rule('C12.TSCFORWARD', lambda: rule_tscforward(ctx), 5)
+
+
+def rule_own_copy(ctx, rule='C12.OWNCOPY'):
+    '''Merkle's functions pad the level in place (hashes.append(hashes[-1])).  The list they pad must be their own copy:
+    callers hand in lists they keep (MerkleCache.level, a session's cached tx hashes), and a padded entry left behind
+    changes every later answer computed from that list.'''
+    rel = ctx.repo.path('merkle')
+    n = 0
+    MUT = ('append', 'extend', 'insert', 'pop', 'remove', 'clear', 'reverse', 'sort')
+    for f in ctx.repo.funcs.values():
+        if f.unit.relpath != rel or f.cls != 'Merkle':
+            continue
+        cfg = ctx.cfg(f)
+        for p_ in f.params[1:]:
+            muts = []
+            for x in f.own_nodes():
+                if isinstance(x, ast.Call) and isinstance(x.func, ast.Attribute) and x.func.attr in MUT \
+                        and isinstance(x.func.value, ast.Name) and x.func.value.id == p_:
+                    muts.append(q.stmt(x))
+                if isinstance(x, (ast.Assign, ast.AugAssign, ast.Delete)):
+                    for t in (x.targets if not isinstance(x, ast.AugAssign) else [x.target]):
+                        if isinstance(t, ast.Subscript) and isinstance(t.value, ast.Name) and t.value.id == p_:
+                            muts.append(x)
+                if isinstance(x, ast.AugAssign) and isinstance(x.target, ast.Name) and x.target.id == p_ \
+                        and isinstance(x.op, ast.Add) and isinstance(x.value, (ast.List, ast.ListComp)):
+                    muts.append(x)        # `hashes += [...]` extends a list in place
+            if not muts:
+                continue
+            n += 1
+            # fresh rebinding: p = list(p) / [..] / p[:] / comprehension, unconditional (dominates every mutation)
+            fresh = []
+            for s_ in f.own_nodes():
+                if isinstance(s_, ast.Assign) and len(s_.targets) == 1 and isinstance(s_.targets[0], ast.Name) and s_.targets[0].id == p_:
+                    v = s_.value
+                    if (isinstance(v, ast.Call) and norm(v.func) in ('list', 'sorted') and len(v.args) >= 1) or \
+                            isinstance(v, (ast.List, ast.ListComp)) or \
+                            (isinstance(v, ast.Subscript) and isinstance(v.slice, ast.Slice)) or \
+                            (isinstance(v, ast.BinOp) and isinstance(v.op, ast.Add)):
+                        fresh.append(s_)
+            bad = [m for m in muts if not any(cfg.dominates(cfg.node(fr_), cfg.node(m)) for fr_ in fresh)]
+            ctx.check(not bad, rule, ctx.key(f, None, f'{p_} copied before it is padded'),
+                      f'`{p_}` is re-bound to a fresh list on every path before it is modified in place',
+                      f'`{p_}` can be modified in place ({", ".join(norm(b)[:40] for b in bad[:2])}) while it is still the caller\'s list: '
+                      'the caller\'s cached level / tx-hash list keeps the padding entry and later branches (TSC marking, index range) differ',
+                      loc=ctx.loc(f, bad[0] if bad else f.node))
+    return n
+
+
+def rule_cache_fields(ctx, rule='C12.FIELDS'):
+    '''Everything MerkleCache remembers about the source between calls is cut by truncate(): a field written by the
+    extending / answering methods but not by truncate() keeps hashes of the abandoned chain.'''
+    rel = ctx.repo.path('merkle')
+    written = {}
+    for f in ctx.repo.funcs.values():
+        if f.unit.relpath != rel or f.cls != 'MerkleCache':
+            continue
+        for s_ in f.own_nodes():
+            tg = s_.targets if isinstance(s_, ast.Assign) else [s_.target] if isinstance(s_, (ast.AugAssign, ast.AnnAssign)) else []
+            for t in tg:
+                for e in (t.elts if isinstance(t, ast.Tuple) else [t]):
+                    b = e
+                    while isinstance(b, ast.Subscript):
+                        b = b.value
+                    if isinstance(b, ast.Attribute) and isinstance(b.value, ast.Name) and b.value.id == 'self':
+                        written.setdefault(b.attr, set()).add(f.name)
+            if isinstance(s_, ast.Call) and isinstance(s_.func, ast.Attribute) and s_.func.attr in (
+                    'append', 'extend', 'update', 'add', 'setdefault', 'insert', 'pop', 'clear') \
+                    and isinstance(s_.func.value, ast.Attribute) and isinstance(s_.func.value.value, ast.Name) \
+                    and s_.func.value.value.id == 'self':
+                written.setdefault(s_.func.value.attr, set()).add(f.name)
+    n = 0
+    for fld, fs in sorted(written.items()):
+        dyn = fs - {'__init__', 'initialize', 'truncate'}
+        if not dyn:
+            continue        # set at construction / initialisation only (depth_higher): not data about the source's tail
+        n += 1
+        ctx.check('truncate' in fs, rule, f'{rel} :: MerkleCache :: self.{fld} cut by truncate',
+                  f'self.{fld} (written by {sorted(dyn)}) is also cut back by truncate()',
+                  f'self.{fld} is written by {sorted(dyn)} but never by truncate(): what it remembers about hashes beyond a '
+                  'truncation point survives the truncation and is served afterwards')
+    return n
+
+
+def rule_init_first(ctx, rule='C12.INITFIRST'):
+    '''branch_and_root reads nothing of the cache before the initialised event has been waited for: depth_higher, length
+    and level are placeholders until initialize() has run.'''
+    f = ctx.func('merkle', 'MerkleCache.branch_and_root')
+    cfg = ctx.cfg(f)
+    waits = [q.stmt(c) for c in q.own_calls(f) if q.callee_name(ctx, f, c) == 'self.initialized.wait']
+    if len(waits) != 1:
+        raise AnalysisError('MerkleCache.branch_and_root: expected one `await self.initialized.wait()`')
+    wn = cfg.node(waits[0])
+    early = []
+    for st in f.own_nodes():
+        if not isinstance(st, ast.stmt) or st is waits[0]:
+            continue
+        try:
+            sn = cfg.node(st)
+        except Exception:
+            continue
+        from ..cfg import head_exprs
+        reads_cache = False
+        for e in head_exprs(st):
+            for a in ast.walk(e):
+                if isinstance(a, ast.Attribute) and isinstance(a.value, ast.Name) and a.value.id == 'self' \
+                        and a.attr not in ('initialized', 'merkle'):
+                    reads_cache = True
+        if reads_cache and not cfg.dominates(wn, sn):
+            early.append(st)
+    ctx.check(not early, rule, ctx.key(f, waits[0], 'nothing read before initialisation'),
+              'every read of the cache\'s fields (and every call of its helpers) comes after the wait for initialisation',
+              'the cache is consulted before initialize() may have run: ' + '; '.join(f'line {e.lineno} `{norm(e)[:50]}`' for e in early[:2]) +
+              ' - computed with depth_higher == 0 / an empty level, then used after the wait', loc=ctx.loc(f, early[0] if early else f.node))
+    return 1
